@@ -9,6 +9,7 @@ a proper prefix of what a reader would consume is answered by "need more".
 -/
 import WtVerif.Lemmas.Readers
 import WtVerif.Lemmas.Frame
+import WtVerif.Lemmas.Worker
 
 namespace Props.C15
 
@@ -67,6 +68,96 @@ theorem frame_async_eq_oneshot (bs : Bytes) (t : Tail) (o : List Poll) :
             subst this; rw [Frame.sync_nil] at hs; cases hs
       rw [← hte, hiff]
       cases t <;> simp [endError, tailErr]
+
+/-! ### the stream typestates: `read_frame_async` = `read_frame` -/
+
+/-- Relation between one asynchronous run of a typestate reader (any number of ignorable
+frames skipped on the way) and the one-shot `read_frame` on the same bytes. -/
+def TsAgree (role : Role) (st : Bool) (bs : Bytes) (t : Tail) : Bool × Ts.AsyncRead × Src × List Poll → Prop
+  | (st', .frame f, s', _) => Ts.readFrame role st bs = (st', .frame f s'.rest)
+  | (st', .h3 e, _, _) => Ts.readFrame role st bs = (st', .err e) ∨
+      (e = .frame ∧ t = .fin ∧ Ts.readFrame role st bs = (st', .needMore))
+  | (st', .io e, _, _) => Ts.readFrame role st bs = (st', .needMore) ∧ e ≠ .unexpectedFin ∧
+      ((e = .immediateFin ∧ t = .fin) ∨ (e = .reset ∧ t = .reset) ∨ (e = .notConnected ∧ t = .lost))
+  | (_, .blocked, s', _) => ∃ c, bs = c ++ s'.rest
+
+/-- **Typestates: async = one-shot.** For every stream role, state, byte string, end of source,
+chunking and `Pending` pattern (and any bound on the number of loop turns): a delivered frame is
+the frame `read_frame` delivers, with the same state and the same bytes left; an H3 error is the
+same error — or H3_FRAME_ERROR where the one-shot reader needs more data and the stream has
+finished; an I/O error only where the one-shot reader needs more; an unfinished run has consumed
+a prefix and delivered nothing. -/
+theorem typestate_async_eq_oneshot (role : Role) : ∀ (fuel : Nat) (st : Bool) (bs : Bytes) (t : Tail) (o : List Poll),
+    TsAgree role st bs t (Ts.readFrameAsync role fuel st ⟨bs, t⟩ o) := by
+  intro fuel
+  induction fuel with
+  | zero => intro st bs t o; exact ⟨[], rfl⟩
+  | succ n ih =>
+    intro st bs t o
+    have hsound := Prog.run_sound Frame.readAsync ⟨bs, t⟩ o
+    have hagree := frame_async_eq_oneshot bs t o
+    unfold Ts.readFrameAsync
+    generalize Frame.readAsync.run ⟨bs, t⟩ o = out at hsound hagree ⊢
+    cases out with
+    | blocked s' => exact hagree
+    | done r s' o' =>
+      cases r with
+      | ok f =>
+        simp only [FrameAgree] at hagree
+        simp only
+        have hrf := Ts.readFrame_eq role st bs
+        rw [hagree] at hrf
+        cases hv : (Ts.validate role st f).2 with
+        | ok f' => simp only [hv] at hrf ⊢; exact hrf
+        | error e => simp only [hv] at hrf ⊢; exact Or.inl hrf
+      | parse e =>
+        cases e with
+        | unknownFrame =>
+          simp only [FrameAgree] at hagree
+          simp only [ProgSpec] at hsound
+          have hs' : s' = ⟨s'.rest, t⟩ := by cases s'; simp only [Src.mk.injEq, true_and]; exact hsound.2
+          have hrec := ih st s'.rest t o'
+          rw [← hs'] at hrec
+          have hrf : Ts.readFrame role st bs = Ts.readFrame role st s'.rest := by
+            rw [Ts.readFrame_eq role st bs, hagree]
+          simp only
+          generalize Ts.readFrameAsync role n st s' o' = res at hrec ⊢
+          obtain ⟨st', r, s2, o2⟩ := res
+          cases r with
+          | frame f => simp only [TsAgree] at hrec ⊢; rw [hrf]; exact hrec
+          | h3 e => simp only [TsAgree] at hrec ⊢; rw [hrf]; exact hrec
+          | io e => simp only [TsAgree] at hrec ⊢; rw [hrf]; exact hrec
+          | blocked =>
+            simp only [TsAgree] at hrec ⊢
+            obtain ⟨c, hc⟩ := hrec
+            obtain ⟨c0, hc0⟩ := Props.C05.read_unknown_suffix hagree
+            exact ⟨c0 ++ c, by rw [hc0, hc, List.append_assoc]⟩
+        | invalidSessionId =>
+          simp only [FrameAgree] at hagree
+          refine Or.inl ?_
+          rw [Ts.readFrame_eq role st bs, hagree]
+        | payloadTooBig =>
+          simp only [FrameAgree] at hagree
+          refine Or.inl ?_
+          rw [Ts.readFrame_eq role st bs, hagree]
+      | io e =>
+        simp only [FrameAgree] at hagree
+        obtain ⟨hread, hend⟩ := hagree
+        have hrf : Ts.readFrame role st bs = (st, .needMore) := by rw [Ts.readFrame_eq role st bs, hread]
+        have ht : endError bs t = some e := hend
+        cases e with
+        | unexpectedFin =>
+          refine Or.inr ⟨rfl, ?_, hrf⟩
+          cases t <;> simp [endError] at ht ⊢ <;> (try (split at ht <;> cases ht))
+        | immediateFin =>
+          refine ⟨hrf, by decide, Or.inl ⟨rfl, ?_⟩⟩
+          cases t <;> simp [endError] at ht ⊢ <;> (try (split at ht <;> cases ht))
+        | reset =>
+          refine ⟨hrf, by decide, Or.inr (Or.inl ⟨rfl, ?_⟩)⟩
+          cases t <;> simp [endError] at ht ⊢ <;> (try (split at ht <;> cases ht))
+        | notConnected =>
+          refine ⟨hrf, by decide, Or.inr (Or.inr ⟨rfl, ?_⟩)⟩
+          cases t <;> simp [endError] at ht ⊢ <;> (try (split at ht <;> cases ht))
 
 def HeaderAgree (bs : Bytes) (t : Tail) : Out HeaderParseError StreamHeader → Prop
   | .done (.ok h) s' _ => StreamHeader.read bs = .header h s'.rest
